@@ -252,7 +252,7 @@ Lemma gunit_sim fo u K : gunit_ok fo u = true -> cont K ->
 Proof.
   intros Hok HK st x pre pc f ak a0 rc HR Ep Hat Ea0 Hpd Hset Hlen Habs Hpre.
   destruct (gunit_ok_parts fo u Hok) as (Hna & Hbne & Hbo & Hlb & Hd & HN).
-  pose proof (unit_body_gen fo u ak a0 (m_stack x) rc [] K Ea0 Hna Hbo Hd HK eq_refl (fun C => False_ind _ (C eq_refl)) (Nat.le_0_l _)
+  pose proof (unit_body_gen fo u ak a0 (m_stack x) rc [] K Ea0 Hna Hbo Hd (or_intror HK) eq_refl (fun C => False_ind _ (C eq_refl)) (Nat.le_0_l _)
                 Hlen Habs (u_body u) true st x (pre ++ ["("%char]) pc f [] Hbne HR) as Hbody.
   cbn [closes_toks closes_str flat_map app length skipn] in Hbody. rewrite app_nil_r in Hbody.
   assert (Hf1 : m_stack x = m_stack x /\ m_prev x = Some ak
